@@ -117,7 +117,7 @@ std::vector<tlx::string_view>& split_view(std::vector<tlx::string_view>* into,
 
     tlx::string_view::const_iterator it = str.begin(), last = it;
 
-    for (; it + sep.size() < str.end(); ++it)
+    for (; it + sep.size() <= str.end(); ++it)
     {
         if (std::equal(sep.begin(), sep.begin() + sep.size(), it))
         {
